@@ -13,7 +13,7 @@ def run(tier, seed):
     chk = vlib.Check("C11", tier, seed)
     flav = ("asan", "asan-ndebug")
     n = 70 if tier == "quick" else 1000
-    cases = sim_common.make_cases("C11", tier, seed, n, variants=(0, 0, 1, 2, 0, 3), fp_levels=(1, 10, 2, 3), sizes=(0, 1, 0), flavours=flav, burst=6)
+    cases = sim_common.make_cases("C11", tier, seed, n, variants=(0, 0, 1, 2, 0, 3), fp_levels=(1, 10, 2, 3), sizes=(0, 1, 0), flavours=flav, burst=6, stateless=8)
     sim_common.run_sim_cases(chk, cases, timeout=300, retries=0)
     chk.soft_fraction = 0.3
     mcases = mpi_common.make_cases("C11", tier, seed, 12 if tier == "quick" else 150, variants=(0, 1, 2), fault_rates=(0, 40), flavours=flav)
